@@ -43,6 +43,7 @@ Definition a_Connection : bytes := [67; 111; 110; 110; 101; 99; 116; 105; 111; 1
 Definition a_AccessoryPairingID : bytes := [65; 99; 99; 101; 115; 115; 111; 114; 121; 80; 97; 105; 114; 105; 110; 103; 73; 68]%N.
 Definition a_AccessoryIP : bytes := [65; 99; 99; 101; 115; 115; 111; 114; 121; 73; 80]%N.
 Definition a_AccessoryPort : bytes := [65; 99; 99; 101; 115; 115; 111; 114; 121; 80; 111; 114; 116]%N.
+Definition a_AccessoryAddress : bytes := [65; 99; 99; 101; 115; 115; 111; 114; 121; 65; 100; 100; 114; 101; 115; 115]%N.
 Definition a_IP : bytes := [73; 80]%N.
 Definition a_CoAP : bytes := [67; 111; 65; 80]%N.
 Definition a_BLE : bytes := [66; 76; 69]%N.
@@ -462,6 +463,7 @@ Definition k_conn := a_Connection.
 Definition k_id := a_AccessoryPairingID.
 Definition k_ip := a_AccessoryIP.
 Definition k_port := a_AccessoryPort.
+Definition k_addr := a_AccessoryAddress.
 
 Inductive lp_result := LpLoaded (d : pdata) | LpSkipped | LpCrash.
 
@@ -489,7 +491,12 @@ Definition load_pairing (d0 : pdata) : lp_result :=
       end
     else LpSkipped
   else if str_is a_BLE conn then
-    if otruthy idv then (if id_ok then LpLoaded d else LpCrash) else LpSkipped
+    if otruthy idv then
+      match plook k_addr d with
+      | Some _ => if id_ok then LpLoaded d else LpCrash
+      | None => LpCrash      (* no discovered device yet: self.name -> pairing_data["AccessoryAddress"] *)
+      end
+    else LpSkipped
   else LpSkipped.                                    (* TransportNotSupportedError, logged and skipped *)
 
 Definition pfile := list (bytes * pdata).
